@@ -241,6 +241,38 @@ pub fn run_c08(ctx: &mut Ctx, known: &Known) {
             }
         }
     }
+    // lists of 64 and more members (the engine counts distinct members differently from 64 on):
+    // a start-anchored member whose needle occurs again later in the value is still ONE member
+    {
+        let mut ms: Vec<String> = vec!["cmd*".to_string()];
+        for i in 0..66 {
+            ms.push(format!("*zz{:02}*", i));
+        }
+        let docs: Vec<Yaml> = ["cmd /c cmd", "cmd zz07 cmd", "cmd", "x cmd", "zz07 zz08", "cmd zz01 zz02 zz03", "", "zz65 cmd"].iter().map(|h| map1("f", ys(h))).collect();
+        for take in [63usize, 64, 65, 67] {
+            let list = Yaml::Sequence(ms.iter().take(take).map(|m| ys(m)).collect());
+            // expected counts per document: distinct members that hold
+            let hits = |h: &str| -> usize { ms.iter().take(take).filter(|m| crate::suites::pattern_rel(m, h) == Some(true)).count() };
+            for (key, need) in [("f".to_string(), 1usize), ("of(f, 1)".to_string(), 1), ("of(f, 2)".to_string(), 2), ("of(f, 3)".to_string(), 3), ("all(f)".to_string(), take)] {
+                let c = case_of(vec![("A".into(), map1(&key, list.clone())), ("condition".into(), ys("A"))], docs.clone(), vec![0, 15]);
+                let (ex, p) = run_rule_case(ctx, &c, false);
+                if let Some(p) = p {
+                    if p.load != "ok" { continue; }
+                    for mask in [0u64, 15] {
+                        let got = verdicts_of(&p, mask);
+                        for (j, d) in docs.iter().enumerate() {
+                            let h = d.as_mapping().and_then(|m| m.get(ys("f"))).and_then(|v| v.as_str()).unwrap_or("");
+                            ctx.nontrivial.insert(hash_str(&format!("big{}{}{}", take, key, j)));
+                            if got[j] != (hits(h) >= need) {
+                                ctx.violation("oracle", &format!("`{}` over a list of {} members (mask {}) on {:?}: engine {}, {} distinct members hold", key, take, mask, h, got[j], hits(h)), &ex, &rule_yaml(&c), true);
+                                break;
+                            }
+                        }
+                    }
+                }
+            }
+        }
+    }
     // members and values with multi-byte characters (a value may have fewer characters than a member
     // has bytes and still satisfy every member)
     {
@@ -667,6 +699,53 @@ pub fn run_c11(ctx: &mut Ctx, _known: &Known) {
             }
         }
     }
+    // (1f) strings that end in line breaks, and EMPTY collections, are the same data in every
+    //      representation
+    {
+        for sv in ["whoami\n", "a\n\n", "\n", "echo hi\necho bye\n", "x", " x ", ""] {
+            for (body, cond) in [("command: whoami", "A"), ("command: 'whoami*'", "A"), ("command: '*i'", "A"), ("command: '?^echo hi\\necho bye\\n$'", "A"), ("command: '?i$'", "not A"), ("command: x", "A"), ("command: ''", "A"), ("command: '*'", "A")] {
+                let text = format!("detection:\n  A:\n    {}\n  condition: {}\ntrue_positives: []\ntrue_negatives: []\n", body, cond);
+                let rule = match Rule::from_str(&text) { Ok(r) => r, Err(_) => continue };
+                ctx.evaluations += 1;
+                ctx.nontrivial.insert(hash_str(&format!("nl{}{}{}", sv, body, cond)));
+                let mut ym = Mapping::new();
+                ym.insert(ys("command"), ys(sv));
+                let js = serde_json::json!({ "command": sv });
+                let mut hm: HashMap<String, String> = HashMap::new();
+                hm.insert("command".into(), sv.to_string());
+                let my = MyObj(vec![("command".to_string(), MyVal::Str(sv.to_string()))]);
+                let via_text: Mapping = serde_yaml::from_str(&serde_yaml::to_string(&ym).unwrap()).unwrap();
+                let reps = [("yaml mapping", rule.matches(&ym)), ("yaml mapping read back from its text", rule.matches(&via_text)), ("serde_json value", rule.matches(&js)), ("HashMap<String, String>", rule.matches(&hm)), ("hand-written Object", rule.matches(&my))];
+                if reps.iter().any(|(_, b)| *b != reps[0].1) {
+                    let dummy = ctx.exchange("tok s:");
+                    ctx.violation("oracle", &format!("rule `{}` ({}), command = {:?}: verdicts differ between representations: {:?}", body, cond, sv, reps), &dummy, &text, true);
+                }
+            }
+        }
+        for (body, cond) in [("tags: admin", "A"), ("tags: admin", "not A"), ("tags: null", "A"), ("tags: ['a*', '*b']", "of(A, 0)"), ("all(tags): [a, b]", "not A"), ("str(tags): x", "not A"), ("tags:\n      k: v", "not A"), ("tags: '*'", "A")] {
+            let text = format!("detection:\n  A:\n    {}\n  condition: {}\ntrue_positives: []\ntrue_negatives: []\n", body, cond);
+            let rule = match Rule::from_str(&text) { Ok(r) => r, Err(_) => continue };
+            for mask in [0u64, 15] {
+                let rl = if mask == 0 { rule.clone() } else { rule.clone().optimise(implside::opts(mask)) };
+                ctx.evaluations += 1;
+                ctx.nontrivial.insert(hash_str(&format!("empty{}{}{}", body, cond, mask)));
+                let ym: Mapping = serde_yaml::from_str("{tags: []}").unwrap();
+                let js = serde_json::json!({ "tags": [] });
+                let mut hv: HashMap<String, Vec<String>> = HashMap::new();
+                hv.insert("tags".into(), vec![]);
+                let mut hs: HashMap<String, HashSet<String>> = HashMap::new();
+                hs.insert("tags".into(), HashSet::new());
+                let mut ho: HashMap<String, Option<Vec<u8>>> = HashMap::new();
+                ho.insert("tags".into(), Some(vec![]));
+                let my = MyObj(vec![("tags".to_string(), MyVal::Arr(vec![]))]);
+                let reps = [("yaml mapping", rl.matches(&ym)), ("serde_json value", rl.matches(&js)), ("HashMap<String, Vec<String>>", rl.matches(&hv)), ("HashMap<String, HashSet<String>>", rl.matches(&hs)), ("HashMap<String, Option<Vec<u8>>>", rl.matches(&ho)), ("hand-written Object", rl.matches(&my))];
+                if reps.iter().any(|(_, b)| *b != reps[0].1) {
+                    let dummy = ctx.exchange("tok s:");
+                    ctx.violation("oracle", &format!("rule `{}` ({}, mask {}), tags = []: verdicts differ between representations: {:?}", body.replace('\n', " "), cond, mask, reps), &dummy, &text, true);
+                }
+            }
+        }
+    }
     // (2) the same logical document in four representations gives the same verdicts
     let n = budget(ctx, 1200, 30000);
     for i in 0..n {
@@ -909,6 +988,7 @@ pub fn run_c12(ctx: &mut Ctx, _known: &Known) {
     c12_twins(ctx);
     c12_logging(ctx);
     c12_maps_and_files(ctx);
+    c12_passes_and_races(ctx);
     for i in 0..n {
         let mut r = Rng::new(ctx.seed.wrapping_mul(613).wrapping_add(i as u64));
         let mut c = gen_case(&mut r, vec![0, 15, 10, 7], 5);
@@ -1080,7 +1160,7 @@ fn c12_twins(ctx: &mut Ctx) {
 
 /// A subscriber that enables everything and keeps nothing: with it installed the engine's `debug!`
 /// lines evaluate their arguments.
-struct AllOn;
+pub struct AllOn;
 impl tracing::Subscriber for AllOn {
     fn enabled(&self, _: &tracing::Metadata<'_>) -> bool { true }
     fn new_span(&self, _: &tracing::span::Attributes<'_>) -> tracing::span::Id { tracing::span::Id::from_u64(1) }
@@ -1222,6 +1302,84 @@ fn c12_maps_and_files(ctx: &mut Ctx) {
         let _ = ok;
         let _ = std::fs::remove_dir_all(&dir);
         ctx.nontrivial.insert(hash_str("rule-load"));
+    }
+}
+
+/// (o) `Rule::optimise` is the composition of the four passes and nothing else (not the clock, not the
+/// size of the rule), also for a rule that takes long to optimise; and verdicts of one optimised rule
+/// are the same when 16 threads evaluate it at the same time, for the casts that format numbers.
+fn c12_passes_and_races(ctx: &mut Ctx) {
+    use tau_engine::core::optimiser;
+    let dummy = |what: &str| Exchange { line: format!("passes {}", what), imp: String::new(), model: String::new(), agree: true, supported: false };
+    for big in [2usize, 40, 300, 600] {
+        // several identifiers of `big` heavy regexes each (one list of all of them would exceed the
+        // regex crate's size limit at load)
+        let mut blocks = String::new();
+        let mut names: Vec<String> = vec![];
+        for k in 0..4 {
+            let mut pats: Vec<String> = vec![];
+            for i in 0..big {
+                pats.push(format!("'?.*(a|b){{1,40}}x{}y[0-9a-f]{{8,64}}.*'", i + 1000 * k));
+            }
+            blocks.push_str(&format!("  H{}:\n    h{}: [{}]\n", k, k, pats.join(", ")));
+            names.push(format!("H{}", k));
+        }
+        let text = format!("detection:\n{}  B:\n    - f: a\n      g: b\n    - f: c\n      g: d\n  C:\n    g: '?.*tail'\n  condition: {} or B or C\ntrue_positives: []\ntrue_negatives: []\n", blocks, names.join(" or "));
+        let rule = match Rule::from_str(&text) { Ok(r) => r, Err(_) => continue };
+        ctx.evaluations += 1;
+        ctx.nontrivial.insert(hash_str(&format!("passes{}", big)));
+        let whole = rule.clone().optimise(implside::opts(15));
+        let by_hand = {
+            let e = optimiser::coalesce(rule.detection.expression.clone(), &rule.detection.identifiers);
+            let e = optimiser::shake(e);
+            let e = optimiser::rewrite(e);
+            optimiser::matrix(e)
+        };
+        if format!("{}", whole.detection.expression) != format!("{}", by_hand) {
+            ctx.violation("oracle", &format!("Rule::optimise (all switches) on a rule with {} regexes does not print what coalesce, shake, rewrite, matrix applied one after the other print: {} vs {}", big, trunc(&format!("{}", whole.detection.expression), 200), trunc(&format!("{}", by_hand), 200)), &dummy("compose"), &trunc(&text, 2000), true);
+        }
+    }
+    // concurrent evaluation of number-formatting paths
+    let rules = [
+        ("detection:\n  A:\n    str(vals): ['1000*', '*0000']\n  condition: of(A, 2)\n", 15u64),
+        ("detection:\n  A:\n    str(vals): ['1000*', '*0000']\n  condition: all(A)\n", 15),
+        ("detection:\n  A:\n    str(vals): ['1e16', '*e16']\n  condition: A\n", 0),
+        ("detection:\n  A:\n    all(str(vals)): ['1000*', '*0000']\n  condition: A\n", 2),
+    ];
+    let docs: Arc<Vec<Mapping>> = Arc::new(["{vals: [1.0e16]}", "{vals: [1.0e16, 5]}", "{vals: 1.0e16}", "{vals: [2.5, 10000, 1.0e21]}", "{vals: [true, 10000000]}"].iter().map(|t| serde_yaml::from_str::<Mapping>(t).unwrap()).collect());
+    for (t, mask) in rules.iter() {
+        let text = format!("{}true_positives: []\ntrue_negatives: []\n", t);
+        let rule = match Rule::from_str(&text) { Ok(r) => if *mask == 0 { r } else { r.optimise(implside::opts(*mask)) }, Err(_) => continue };
+        let expect: Vec<bool> = docs.iter().map(|d| rule.matches(d)).collect();
+        ctx.nontrivial.insert(hash_str(&text));
+        let shared = Arc::new(rule);
+        let mut handles = vec![];
+        for t in 0..16usize {
+            let rl = Arc::clone(&shared);
+            let ds = Arc::clone(&docs);
+            let ex = expect.clone();
+            handles.push(std::thread::spawn(move || {
+                let mut bad: Option<(usize, bool)> = None;
+                for round in 0..4000usize {
+                    let j = (round + t) % ds.len();
+                    let v = rl.matches(&ds[j]);
+                    if v != ex[j] && bad.is_none() {
+                        bad = Some((j, v));
+                    }
+                }
+                bad
+            }));
+        }
+        let mut reported = false;
+        for h in handles {
+            if let Ok(Some((j, v))) = h.join() {
+                if !reported {
+                    reported = true;
+                    ctx.violation("oracle", &format!("16 threads evaluating one rule at the same time: document {} gave {} on some thread, {} when evaluated alone", j, v, expect[j]), &dummy("race"), &text, true);
+                }
+            }
+        }
+        ctx.evaluations += 16 * 4000;
     }
 }
 
@@ -1614,6 +1772,22 @@ pub fn run_c15(ctx: &mut Ctx, _known: &Known) {
         }
         if !ascii_rule_ok(&c) {
             continue;
+        }
+        // regex classes and boundaries are Unicode-aware in both builds
+        if i % 7 == 0 {
+            let rx = ["?^\\w+\\.exe$", "?^\\d+$", "?^net\\s+user", "?\\bcmd\\b", "?^(kiosk|system)$", "?^\\w+$", "?\\W", "?^[[:alpha:]]+$", "?\\s$"];
+            let v = if i % 14 == 0 { ys(rx[(i / 7) % rx.len()]) } else { Yaml::Sequence(vec![ys(rx[(i / 7) % rx.len()]), ys("zq*")]) };
+            c.det.push(("U".into(), map1("s", v)));
+            for (k, cv) in c.det.iter_mut() {
+                if k == "condition" {
+                    if let Yaml::String(t) = cv {
+                        *t = format!("({}) or U", t);
+                    }
+                }
+            }
+            for t in ["café.exe", "٣٣", "net\u{a0}user", "écmd", "cmd", "éé", "é", "Ж", "a ", "a\u{a0}", "cafe.exe", "12"] {
+                c.docs.push(map1("s", ys(t)));
+            }
         }
         // a comparison of two fields' texts holds no pattern: it is case-SENSITIVE in both builds
         if i % 5 == 0 {
